@@ -11,6 +11,9 @@ import FeatModel.Lemmas.C02BcsrPerm
 import FeatModel.Lemmas.C02Rebuild
 import FeatModel.Lemmas.C02Round
 import FeatModel.Lemmas.C02XClone
+import FeatModel.Lemmas.C02Abort
+import FeatModel.Lemmas.C02Valid
+import FeatModel.Lemmas.C02Misc
 /-!
 # C02 — conversion, cloning, transposition and permutation preserve the matrix (property theorems)
 
@@ -336,10 +339,96 @@ theorem C02.xclone_content {α : Type} (f : α → α) (h : Heap α) (c : Handle
   ⟨C02L.xclone_reads f h c hok dDiff iDiff m k dflt hk, C02L.xclone_source_unchanged f h c hok dDiff iDiff m k dflt,
    C02L.xclone_okIn f h c hok dDiff iDiff m⟩
 
+/-! ### abort freedom: the exact per-step precondition; the failures of the code as it is -/
+
+/-- `Mat.failure` — read off the operand alone (format, emptiness, sizes) — classifies the outcome of every operation
+    exactly: the model aborts iff the class is D6 / D7 / wrong permutation size, the operation does not exist iff
+    `notApplicable`, and otherwise it yields a container -/
+theorem C02.step_classify {α : Type} [Zero α] (m : Mat α) (o : Op) :
+    (m.step o = .abort ↔ m.failure o = some .abortD6 ∨ m.failure o = some .abortD7 ∨
+      m.failure o = some .abortPermSize) ∧
+    (m.step o = .bad ↔ m.failure o = some .notApplicable) ∧
+    ((∃ m', m.step o = .ok m') ↔ m.failure o = none ∨ m.failure o = some .crashD1 ∨ m.failure o = some .crashD3 ∨
+      m.failure o = some .crashD5 ∨ m.failure o = some .abortD3) :=
+  C02L.step_classify m o
+
+/-- the code as it is (`Mat.stepCode`, what `drv_c02` prints): it yields a container iff the decidable precondition
+    `Mat.pre` holds, and then the container of `Mat.step` -/
+theorem C02.stepCode_ok_iff {α : Type} [Zero α] (m : Mat α) (o : Op) :
+    ((∃ m', m.stepCode o = .ok m') ↔ m.pre o = true) ∧ (∀ m', m.stepCode o = .ok m' → m.step o = .ok m') :=
+  ⟨C02L.stepCode_ok_iff m o, fun m' h => C02L.stepCode_ok_eq_step m m' o h⟩
+
+/-- THE ABORT SET of the code as it is: exactly the open findings D6 (CSCR -> CSR of a matrix with an empty row or
+    without entries), D7 (CSR -> banded of an entry-free matrix), D3 with 0 rows, and a permutation of the wrong size -/
+theorem C02.stepCode_abort_iff {α : Type} [Zero α] (m : Mat α) (o : Op) :
+    m.stepCode o = .abort ↔
+      (∃ B, m = .cscr B ∧ o = .tocsr ∧ (B.usedElements = 0 ∨ B.usedRows < B.rows)) ∨
+      (∃ A, m = .csr A ∧ o = .tobanded ∧ A.usedElements = 0) ∨
+      (∃ A p q, m = .csr A ∧ o = .perm p q ∧ ¬(p.size = 0 ∧ q.size = 0) ∧ (p.size ≠ A.rows ∨ q.size ≠ A.cols)) ∨
+      (∃ A, m = .csr A ∧ o = .tocscr ∧ A.usedElements = 0 ∧ A.rows = 0) :=
+  C02L.stepCode_abort_iff m o
+
+/-- THE CRASH SET of the code as it is: exactly the open findings D1, D3, D5 — an entry-free CSR operand of
+    `permute` (matching sizes), of CSR -> CSCR, of the graph rebuild (the latter two with at least one row) -/
+theorem C02.stepCode_crash_iff {α : Type} [Zero α] (m : Mat α) (o : Op) :
+    m.stepCode o = .crash ↔ ∃ A, m = .csr A ∧ A.usedElements = 0 ∧
+      ((∃ p q, o = .perm p q ∧ ¬(p.size = 0 ∧ q.size = 0) ∧ p.size = A.rows ∧ q.size = A.cols) ∨
+       (o = .tocscr ∧ 0 < A.rows) ∨ (o = .graph ∧ 0 < A.rows)) :=
+  C02L.stepCode_crash_iff m o
+
+/-- `chain_spec` under the conjunction of the per-step preconditions (`runPre`) instead of "the chain ran through":
+    the chain does run through — in the model and, step by step, in the code as it is (`runCode` folds `stepCode`) —
+    and yields a valid container of the textbook dimensions representing the textbook matrix -/
+theorem C02.chain_total {α : Type} [Zero α] [Add α] (h0 : (0 : α) + 0 = 0) (ops : List Op) (m : Mat α)
+    (hv : m.valid = true) (hok : chainOk ops (⟨m.rows, m.cols, m.entry⟩ : Sem α) = true)
+    (hpre : m.runPre ops = true) :
+    ∃ m', m.run ops = some m' ∧ C02L.AbortAux.runCode ops m = some m' ∧ m'.valid = true ∧
+      m'.rows = (semRun ops ⟨m.rows, m.cols, m.entry⟩).rows ∧
+      m'.cols = (semRun ops ⟨m.rows, m.cols, m.entry⟩).cols ∧
+      ∀ i j, i < m'.rows → j < m'.cols → m'.entry i j = (semRun ops ⟨m.rows, m.cols, m.entry⟩).f i j := by
+  obtain ⟨m', h1, h2⟩ := C02L.chain_total h0 ops m hv hok hpre
+  exact ⟨m', h1, by rw [C02L.runCode_eq_run_of_runPre ops m hpre]; exact h1, h2⟩
+
+/-- … and `runPre` is exact: the code as it is runs through a chain iff `runPre` holds -/
+theorem C02.runCode_some_iff {α : Type} [Zero α] (ops : List Op) (m : Mat α) :
+    (∃ m', C02L.AbortAux.runCode ops m = some m') ↔ m.runPre ops = true :=
+  C02L.runCode_some_iff ops m
+
+/-! ### one invariant: every producer yields a structurally valid layout -/
+
+/-- for every operation of the three families the driver executes (`Op`: conversions between all format pairs,
+    transposes, permutation with re-sort, clones, rebuilds, type round trips; `AOp`: aliased / pre-existing targets;
+    `XOp`: layout / graph rebuilds, block permutation, index / data type conversions, cross-type clones) whose side
+    conditions hold (permutations are bijections of the index sets; indices fit 32 bits where an index type changes),
+    EVERY container the step hands back — target and reported source — has a valid layout: monotone row pointers from 0
+    to nnz, in-range strictly increasing column indices (`Mat.valid`, printed per step as `V1` by driver and harness) -/
+theorem C02.valid_preserved {α : Type} [Zero α] [Add α] (h0 : (0 : α) + 0 = 0) (fill : α) (round : α → α) (m : Mat α)
+    (hv : m.valid = true) (a : C02L.AnyOp) (hs : a.side m) :
+    ∀ r, r ∈ a.outputs fill round m → r.valid = true :=
+  C02L.valid_preserved h0 fill round m hv a hs
+
+/-! ### type conversions: identity exactly on the representable values -/
+
+/-- narrowing to a `p`-bit binary float (round to nearest even: double -> float, `p = 24`; truncation: `Q` -> double,
+    `p = 53`) is the identity IFF the value is representable (`reprBits`, decidable), and always lands on a representable
+    value -/
+theorem C02.narrow_eq_iff (p : Nat) (hp : 0 < p) (x : Rat) :
+    (rneBits p x = x ↔ reprBits p x = true) ∧ (truncBits p x = x ↔ reprBits p x = true) ∧
+    reprBits p (rneBits p x) = true ∧ reprBits p (truncBits p x) = true :=
+  ⟨C02L.rneBits_eq_iff p hp x, C02L.truncBits_eq_iff p hp x, C02L.rneBits_repr p hp x, C02L.truncBits_repr p hp x⟩
+
+/-- converting to a wider type and back is the identity: float -> double -> float on every float value; the `dtw` step
+    of the driver (Q -> float -> double -> float -> Q) is the `dt` step; u32 -> u64 -> u32 on every index array that
+    fits; and index narrowing is the identity IFF the array fits (`fits32`, decidable) -/
+theorem C02.widen_back_id (x : Rat) (h : reprBits 24 x = true) (m : Mat Rat) (a : Array Nat) :
+    rneBits 24 (truncBits 53 x) = x ∧ m.stepX roundDt .dtw = m.stepX roundDt .dtx ∧
+    (narrow32 a = a ↔ fits32 a = true) ∧ fits32 (narrow32 a) = true :=
+  ⟨C02L.widen_back_id x h, C02L.dtw_eq_dtx m, C02L.narrow32_eq_iff a, C02L.narrow32_fits a⟩
+
 /-!
 ### Covered by the correspondence run only (no theorem here)
-* that a chain does not abort (`C02.chain_spec` assumes `run = some _`; the aborts that remain are the open known
-  findings D6 / D7 and a permutation of the wrong size);
+* the failure classes of the aliased-target and extension operations (`convt`, `graphz`, BCSR `perm`: the same
+  D3 / D5 / D6 / D7 / D9 classes, judged by the oracle, not classified by a theorem);
 * the effect of the data-type round trip on values that are not float-representable (the model `roundDt` is compared
   with the real code on every generated value; only its fixed points are characterised by a theorem), exponent
   range / denormals, and index values ≥ 2^32 (not allocatable);
